@@ -537,7 +537,7 @@ func (i *interpreter) callSSA(caller *frame, callpos token.Pos, fn *ssa.Function
 		panic(unsupported("uninstantiated generic " + fn.String()))
 	}
 	i.depth++
-	if i.depth > maxCallDepth {
+	if i.depth > maxCallDepth+i.extraDepth {
 		i.depth--
 		panic(pathAbort{"incomplete", "call depth budget exceeded in " + fn.String()})
 	}
